@@ -36,6 +36,8 @@ func runC09(c *Check, tier string) {
 	ruleExportedConfigIsKeyed(c, "R09l")
 	// the resolved inputs (a key source) do not depend on where the workspace lives
 	ruleGlobPatternNotComposed(c, "R09m")
+	// round 7: the key is a function of the (path, content) pairs, not of the multiset of contents
+	ruleContentDigestsNotSorted(c, "R09n")
 }
 
 // R09f: every listed input file contributes its content — the loop that streams the input files into the
